@@ -199,8 +199,18 @@ namespace nmtools::array
             if (out_size == 1) {
                 // reduce all to single scalar
 
+                // start from the identity of the op (0 is only the identity of add)
+                const element_type full_identity = [&]()->element_type{
+                    using op_type = meta::remove_cvref_t<decltype(view.op)>;
+                    if constexpr (meta::has_identity_v<op_type>) {
+                        return view.op.identity();
+                    } else {
+                        return 0;
+                    }
+                }();
+
                 // vertical op
-                auto reg = op.set1(0);
+                auto reg = op.set1(full_identity);
                 for (size_t i=0; (i+N)<=size; i+=N) {
                     const auto operand = op.loadu(&inp_data_ptr[i]);
                     reg = op.eval(reg,operand);
